@@ -5,40 +5,6 @@ use crate::c03::*;
 
 /// Test generated for harness `c03::c03_minmaxnorm_oa_fullrange_n2` 
 ///
-/// Check for `cover`: "kernel returned"
-///
-/// # Warning
-///
-/// Concrete playback tests combined with stubs or contracts is highly
-/// experimental, and subject to change.
-///
-/// The original harness has stubs which are not applied to this test.
-/// This may cause a mismatch of non-deterministic values if the stub
-/// creates any non-deterministic value.
-/// The execution path may also differ, which can be used to refine the stub
-/// logic.
-
-#[test]
-fn kani_concrete_playback_c03_minmaxnorm_oa_fullrange_n2_925696438188418012() {
-    let concrete_vals: Vec<Vec<u8>> = vec![
-        // 0
-        vec![0],
-        // 0
-        vec![0],
-        // 0
-        vec![0, 0, 0, 0],
-        // 1ul
-        vec![1, 0, 0, 0, 0, 0, 0, 0],
-        // 0
-        vec![0],
-        // 0ul
-        vec![0, 0, 0, 0, 0, 0, 0, 0],
-    ];
-    kani::concrete_playback_run(concrete_vals, c03_minmaxnorm_oa_fullrange_n2);
-}
-
-/// Test generated for harness `c03::c03_minmaxnorm_oa_fullrange_n2` 
-///
 /// Check for `assertion`: "attempt to subtract with overflow"
 ///
 /// # Warning
@@ -71,6 +37,40 @@ fn kani_concrete_playback_c03_minmaxnorm_oa_fullrange_n2_18249404861510732467() 
         vec![1],
         // 2ul
         vec![2, 0, 0, 0, 0, 0, 0, 0],
+    ];
+    kani::concrete_playback_run(concrete_vals, c03_minmaxnorm_oa_fullrange_n2);
+}
+
+/// Test generated for harness `c03::c03_minmaxnorm_oa_fullrange_n2` 
+///
+/// Check for `cover`: "kernel returned"
+///
+/// # Warning
+///
+/// Concrete playback tests combined with stubs or contracts is highly
+/// experimental, and subject to change.
+///
+/// The original harness has stubs which are not applied to this test.
+/// This may cause a mismatch of non-deterministic values if the stub
+/// creates any non-deterministic value.
+/// The execution path may also differ, which can be used to refine the stub
+/// logic.
+
+#[test]
+fn kani_concrete_playback_c03_minmaxnorm_oa_fullrange_n2_925696438188418012() {
+    let concrete_vals: Vec<Vec<u8>> = vec![
+        // 0
+        vec![0],
+        // 0
+        vec![0],
+        // 0
+        vec![0, 0, 0, 0],
+        // 1ul
+        vec![1, 0, 0, 0, 0, 0, 0, 0],
+        // 0
+        vec![0],
+        // 0ul
+        vec![0, 0, 0, 0, 0, 0, 0, 0],
     ];
     kani::concrete_playback_run(concrete_vals, c03_minmaxnorm_oa_fullrange_n2);
 }
